@@ -341,13 +341,72 @@ pub fn check(thorough: bool, _seed: u64) -> Check {
         classes: vec![],
         bounds: json!({"pairs": "PolyN of lengths 0..4 x 0..4; Piecewise<Poly2>, Piecewise<IntOfLogPoly4> with 0..3 x 0..3 pieces (one a prefix of the other), every tolerance incl. +inf"}),
     };
+    // differences that sit exactly on a tolerance: |a-b| equal to the rounded product max(|a|,|b|)*max_relative (and its two
+    // neighbours), for tolerances that are not powers of two, and |a-b| equal to epsilon (and its neighbours)
+    let cs4 = cs.clone();
+    let boundary = Phase {
+        name: "differences-on-the-tolerance",
+        units: n,
+        split: 1,
+        body: Box::new(move |unit, cx| {
+            let c = &cs4[unit];
+            if c.n == 0 {
+                return Ok(());
+            }
+            const AV: [f64; 10] = [10.0, 1000.0, 1e6, 3.0, 7.0, 0.1, 1e-3, 123.456, -10.0, -0.7];
+            const TOL: [f64; 9] = [0.3, 0.7, 0.1, 1e-6, 1e-3, 0.9, 1.5, 2.5, 1e-9];
+            let lane = cx.choose(c.n);
+            let av = AV[cx.choose(AV.len())];
+            let tol = TOL[cx.choose(TOL.len())];
+            let relative = cx.flag();
+            let d = if relative { av.abs() * tol } else { tol };
+            // the other number below / above in magnitude; for the relative case with b the larger one, solve b - a = b*tol
+            let centre = match cx.choose(if relative && tol < 1.0 { 3 } else { 2 }) {
+                0 => av - d,
+                1 => av + d,
+                _ => av / (1.0 - tol),
+            };
+            let bv = match cx.choose(5) {
+                0 => centre,
+                1 => exact::pred(centre),
+                2 => exact::succ(centre),
+                3 => exact::pred(exact::pred(centre)),
+                _ => exact::succ(exact::succ(centre)),
+            };
+            let (eps, rel) = if relative { ([0.0, f64::EPSILON, 1e-12][cx.choose(3)], tol) } else { (tol, [0.0, f64::EPSILON][cx.choose(2)]) };
+            let mut a = base(c.n);
+            let mut b = a.clone();
+            a[lane] = av;
+            b[lane] = bv;
+            if cx.flag() {
+                std::mem::swap(&mut a, &mut b);
+            }
+            cx.nontrivial();
+            cx.evals(5);
+            if cx.sampling() {
+                cx.sample(json!({"type": c.ty, "position": lane, "a": fj(a[lane]), "b": fj(b[lane]), "epsilon": fj(eps), "max_relative": fj(rel)}));
+            }
+            match (c.run)(&a, &b, eps, rel) {
+                Ok((abs, re)) => {
+                    cx.class(abs as usize);
+                    cx.class(2 + re as usize);
+                    Ok(())
+                }
+                Err((what, d)) => Err(Fail::new(what, json!({"position": lane, "a[position]": fj(a[lane]), "b[position]": fj(b[lane]), "epsilon": fj(eps), "max_relative": fj(rel), "observation": d}))),
+            }
+        }),
+        classes: vec![("abs_diff_eq_false", true), ("abs_diff_eq_true", true), ("relative_eq_false", true), ("relative_eq_true", true)],
+        bounds: json!({"types": "every type implementing the approx traits", "position": "every number position in turn",
+            "pairs": "a in {10,1000,1e6,3,7,0.1,1e-3,123.456,-10,-0.7}; b = a -+ |a|*t, a/(1-t) (relative) or a -+ t (absolute), each also 1 and 2 ulps either side; t in {0.3,0.7,0.1,1e-6,1e-3,0.9,1.5,2.5,1e-9}; both argument orders",
+            "tolerances": "relative: max_relative = t with epsilon in {0, EPSILON, 1e-12}; absolute: epsilon = t with max_relative in {0, EPSILON}"}),
+    };
     let mut extra = serde_json::Map::new();
     extra.insert("approx_types".into(), json!(names));
     Check {
         id: "C17",
         rule: "choice tree: type (unit) x perturbation per number x epsilon x max_relative; each leaf calls the real abs_diff_eq / relative_eq in both argument orders and ==; non-trivial = at least one number perturbed / special value / different lengths".into(),
         assumptions: vec!["approx's own f64 impls are the per-number reference".into()],
-        phases: vec![perturb, special, lengths, big, alias],
+        phases: vec![perturb, special, lengths, big, alias, boundary],
         extra,
         controls: vec![],
     }
